@@ -274,7 +274,7 @@ package proto
 //@   ensures err == nil ==> len(r.b.Buf) == n && forall k in 0..n :: r.b.Buf[k] == r.in[old(r.pos) + k]
 //@   ensures r.reliable && !old(r.failed) && old(r.pos) + n <= r.end ==> err == nil {succeeds-when-bytes-present}
 
-//@ contract (r *Reader) ReadRaw(n) (out, err) props(C01,C06,C07,C08)
+//@ contract (r *Reader) ReadRaw(n) (out, err) props(C01,C06,C07,C08,C15)
 //@   requires r != nil && 0 <= n
 //@   modifies r.pos, r.failed, r.b.Buf
 //@   ensures rdOK(r, err, n)
@@ -423,7 +423,7 @@ package proto
 //@ valid (w *Writer): w != nil ==> w.buf != nil
 //@ spec func wRI(w Val) Bool = 0 <= w.bufOffset && w.bufOffset <= len(w.buf.Buf)
 
-//@ contract (w *Writer) cutBuffer() props(C14,C02,C09)
+//@ contract (w *Writer) cutBuffer() props(C14,C02,C09,C15)
 //@   requires w != nil && wRI(w)
 //@   modifies w.bufOffset, w.vec
 //@   ensures wRI(w) && w.bufOffset == len(w.buf.Buf) {offset-at-end}
@@ -432,19 +432,19 @@ package proto
 //@   ensures old(w.bufOffset) < len(w.buf.Buf) ==> len(w.vec[old(len(w.vec))]) == len(w.buf.Buf) - old(w.bufOffset) && cap(w.vec[old(len(w.vec))]) == len(w.vec[old(len(w.vec))]) {cut-is-cap-limited}
 //@   ensures old(w.bufOffset) < len(w.buf.Buf) ==> arrayof(w.vec[old(len(w.vec))]) == arrayof(w.buf.Buf) && offset(w.vec[old(len(w.vec))]) == offset(w.buf.Buf) + old(w.bufOffset) {cut-is-the-staged-bytes}
 
-//@ contract (w *Writer) ChainWrite(data) props(C09,C14,C02)
+//@ contract (w *Writer) ChainWrite(data) props(C09,C14,C02,C15)
 //@   requires w != nil && wRI(w)
 //@   modifies w.bufOffset, w.vec
 //@   ensures wRI(w) && w.bufOffset == len(w.buf.Buf) {cut-first}
 //@   ensures len(w.vec) == old(len(w.vec)) + 1 + ite(old(w.bufOffset) < len(w.buf.Buf), 1, 0) {count}
 //@   ensures arrayof(w.vec[len(w.vec) - 1]) == arrayof(data) && offset(w.vec[len(w.vec) - 1]) == offset(data) && len(w.vec[len(w.vec) - 1]) == len(data) {data-is-last}
 
-//@ contract (w *Writer) reset() props(C14,C04,C09)
+//@ contract (w *Writer) reset() props(C14,C04,C09,C15)
 //@   requires w != nil
 //@   modifies w.bufOffset, w.needCut, w.vec, w.buf.Buf, contents(w.vec)
 //@   ensures w.bufOffset == 0 && len(w.vec) == 0 && len(w.buf.Buf) == 0
 
-//@ contract (w *Writer) Flush() (n, err) props(C02,C04,C09,C14)
+//@ contract (w *Writer) Flush() (n, err) props(C02,C04,C09,C14,C15)
 //@   requires w != nil && wRI(w) && w.conn != nil
 //@   modifies w.bufOffset, w.needCut, w.vec, w.buf.Buf, contents(w.vec), all(w.conn)
 //@   ensures w.bufOffset == 0 && len(w.vec) == 0 && len(w.buf.Buf) == 0 {reset-always}
